@@ -124,10 +124,12 @@ type link struct {
 	received  int // callback invocations (entries the leader's follower goroutine handed over)
 	submitted int // entries the leader submitted to this link's follower object (from the hook)
 	joined    bool
+	desc      string // the follow request this link was opened with (debugging)
 }
 
 // Follower is one follower node.
 type Follower struct {
+	followCalls int // invocations of DBOpts.Follow on the current instance
 	c         *Cluster
 	Partition int
 	ID        int
@@ -158,6 +160,24 @@ type Leader struct {
 	joins  int // Follow calls issued by the harness against this instance
 	mx     sync.Mutex
 	gen    chan struct{} // closed when this leader instance is replaced
+	// up is closed once the current instance has its schema (and so its streams); a real leader starts serving RPC
+	// only after it has loaded its schema, so nobody may join or register with an instance before that
+	up chan struct{}
+}
+
+// current returns the leader's database once it is ready to be joined.
+func (l *Leader) current() (*zenodb.DB, chan struct{}) {
+	for {
+		l.mx.Lock()
+		z, gen, up := l.Z, l.gen, l.up
+		l.mx.Unlock()
+		select {
+		case <-up:
+			return z, gen
+		case <-time.After(30 * time.Second):
+			return z, gen
+		}
+	}
 }
 
 // Cluster is a running in-process cluster.
@@ -179,6 +199,43 @@ func (c *Cluster) schema() zenodb.Schema {
 			PartitionBy: append([]string(nil), t.PartitionBy...), MinFlushLatency: time.Hour}
 	}
 	return s
+}
+
+// AddTable adds a table to the schema of every node while the cluster runs (the way a schema file change is picked up).
+// On a follower that is already following, the new table subscribes late: zenodb cancels the follow session and calls
+// DBOpts.Follow again; AddTable returns once that has happened on every follower that is up.
+func (c *Cluster) AddTable(t dbdrv.TableDef) error {
+	c.Cfg.Tables = append(c.Cfg.Tables, t)
+	for _, l := range c.Leaders {
+		if err := l.Z.ApplySchema(c.schema()); err != nil {
+			return err
+		}
+	}
+	for _, f := range c.Followers {
+		if !f.Up {
+			continue
+		}
+		f.mx.Lock()
+		before := f.followCalls
+		f.mx.Unlock()
+		if err := f.Z.ApplySchema(c.schema()); err != nil {
+			return err
+		}
+		deadline := time.Now().Add(c.Timeout)
+		for {
+			f.mx.Lock()
+			n := f.followCalls
+			f.mx.Unlock()
+			if n > before {
+				break
+			}
+			if time.Now().After(deadline) {
+				return fmt.Errorf("follower %d.%d did not restart its follow session after the table was added", f.Partition, f.ID)
+			}
+			time.Sleep(200 * time.Microsecond)
+		}
+	}
+	return nil
 }
 
 // Start brings up leaders and followers on fresh directories under base.
@@ -224,13 +281,18 @@ func (l *Leader) open() error {
 	if err != nil {
 		return err
 	}
+	zenodb.VerifAdvanceClock(z, l.c.Now)
+	err = z.ApplySchema(l.c.schema())
 	l.mx.Lock()
 	l.Z = z
 	l.gen = make(chan struct{})
-	l.mx.Unlock()
 	l.joins = 0
-	zenodb.VerifAdvanceClock(z, l.c.Now)
-	return z.ApplySchema(l.c.schema())
+	if l.up == nil {
+		l.up = make(chan struct{})
+	}
+	close(l.up)
+	l.mx.Unlock()
+	return err
 }
 
 // Restart closes and reopens the leader on its directory. Followers that
@@ -238,6 +300,7 @@ func (l *Leader) open() error {
 func (l *Leader) Restart() error {
 	l.mx.Lock()
 	close(l.gen)
+	l.up = make(chan struct{}) // not joinable until the new instance has its schema
 	l.mx.Unlock()
 	l.Z.Close()
 	forget(l.Z)
@@ -280,6 +343,7 @@ func (f *Follower) Open() error {
 			again := f.ff != nil
 			f.ff, f.insert = ff, insert
 			f.follows = nil
+			f.followCalls++
 			f.mx.Unlock()
 			if again {
 				for _, l := range f.c.Leaders {
@@ -356,9 +420,7 @@ func (f *Follower) Open() error {
 // registerHandler registers one query handler with the leader that is current
 // at the time of the call (leaders can be restarted).
 func (c *Cluster) registerHandler(f *Follower, l *Leader, partition int, query func(z *zenodb.DB) planner.QueryClusterFN, stop chan struct{}) {
-	l.mx.Lock()
-	z, gen := l.Z, l.gen
-	l.mx.Unlock()
+	z, gen := l.current()
 	done := make(chan struct{})
 	go func() {
 		defer func() { recover(); close(done) }()
@@ -402,8 +464,10 @@ func (f *Follower) connect(l *Leader, first bool) {
 	if fol == nil {
 		return
 	}
+	z, _ := l.current()
+	l.mx.Lock()
 	l.joins++
-	z := l.Z
+	l.mx.Unlock()
 	fid := fmt.Sprintf("%d.%d", f.Partition, f.ID)
 	hookMx.Lock()
 	if pending[z] == nil {
@@ -412,6 +476,15 @@ func (f *Follower) connect(l *Leader, first bool) {
 	pending[z][fid] = append(pending[z][fid], lk)
 	hookMx.Unlock()
 	cp := *fol // leader copies it anyway
+	var ds []string
+	for _, p := range cp.Partitions {
+		for _, t := range p.Tables {
+			ds = append(ds, fmt.Sprintf("%v/%s@%v", p.Keys, t.Name, t.Offsets))
+		}
+	}
+	lk.mx.Lock()
+	lk.desc = fmt.Sprintf("earliest=%v %v", cp.EarliestOffset, ds)
+	lk.mx.Unlock()
 	go z.Follow(&cp, func(data []byte, offset wal.Offset) error {
 		lk.mx.Lock()
 		lk.queue++
@@ -762,7 +835,7 @@ func (c *Cluster) DebugState() string {
 		f.mx.Lock()
 		for id, lk := range f.links {
 			lk.mx.Lock()
-			fmt.Fprintf(&sb, "follower %d.%d link->%d: joined=%v cut=%v dead=%v eager=%v queue=%d received=%d submitted=%d delivered=%d; ", f.Partition, f.ID, id, lk.joined, lk.cut, lk.dead, lk.eager, lk.queue, lk.received, lk.submitted, lk.delivered)
+			fmt.Fprintf(&sb, "follower %d.%d link->%d: joined=%v cut=%v dead=%v eager=%v queue=%d received=%d submitted=%d delivered=%d request={%s}; ", f.Partition, f.ID, id, lk.joined, lk.cut, lk.dead, lk.eager, lk.queue, lk.received, lk.submitted, lk.delivered, lk.desc)
 			lk.mx.Unlock()
 		}
 		f.mx.Unlock()
@@ -770,8 +843,13 @@ func (c *Cluster) DebugState() string {
 			for _, t := range c.Cfg.Tables {
 				name := strings.ToLower(t.Name)
 				_, done, submit, applied := zenodb.VerifCounters(f.Z, name)
-				fmt.Fprintf(&sb, "%s: handoff=%d done=%d submit=%d applied=%d; ", name, zenodb.VerifEventCount(f.Z, name, "follow-handoff"), done, submit, applied)
+				fmt.Fprintf(&sb, "%s: handoff=%d done=%d submit=%d applied=%d", name, zenodb.VerifEventCount(f.Z, name, "follow-handoff"), done, submit, applied)
+				if d, err := zenodb.VerifDump(f.Z, name); err == nil && d != nil {
+					fmt.Fprintf(&sb, " memrows=%d filerows=%d file=%s", len(d.MemRows), len(d.FileRows), filepath.Base(d.FileName))
+				}
+				sb.WriteString("; ")
 			}
+			fmt.Fprintf(&sb, "clock=%v; ", zenodb.VerifNow(f.Z).UTC().Format(time.RFC3339Nano))
 		}
 	}
 	return sb.String()
